@@ -372,6 +372,12 @@ def tie(tier, seed, replay):
         if r["impl"] and "snaps" in r["impl"][0]:
             s["impl"] = {k: v[:6] for k, v in g.decode_snapshot(r["case"]["prog"], r["impl"][0]["snaps"][-1]).items()}
         sample.append(s)
+    # the per-index lattice engine (LatEngine/LatIndexedEval.v) against the REAL index fields of lattice programs after run()
+    latidx = None
+    if not replay:
+        from .. import lat_indexed_tie
+        latidx = lat_indexed_tie.run_tie(tier, seed) if hasattr(lat_indexed_tie, "run_tie") else lat_indexed_tie.run(tier, seed)
+        mism += latidx.pop("mismatches")
     # the planner model on lattice programs (Plan/PlanLat*.v: c03_planner_*): model plan = dumped plan, hypotheses evaluated in Coq
     planlat = None
     if not replay:
